@@ -4,7 +4,7 @@
    for, back-patching) are NOT covered by this theorem; for them the tie is
    the verified validator wf_check run on every emitted program (C17). *)
 From Coq Require Import ZArith NArith List Bool Lia ZifyBool ZifyNat ZifyN Floats.
-From EvyV Require Import Base Bytecode BytecodeProofs SymTab SymTabProofs Vm VmProofs Compile CompileProofs.
+From EvyV Require Import Base Bytecode BytecodeProofs SymTab SymTabProofs Vm VmProofs Compile CompileSem CompileProofs.
 Require Import EvyV.Gen.Opcodes.
 Import ListNotations.
 Open Scope N_scope.
